@@ -1464,8 +1464,11 @@ def m_vec_drain_all(e,run,a,f):
     d=deref(a[0]); xs=list(d.items); d.items=[]; return Iter(xs)
 def m_split_at(e,run,a,f):
     d=deref(a[0]); i=deref(a[1])
-    if not i.conc(): raise Unsupported('split_at symbolic')
     n=e.len_of(d)
+    if not i.conc():
+        k=concretize_small(run,i,n)
+        if k is None: raise Panic('split_at mid > len','slice')
+        i=Int(i.w,i.s,k)
     if i.v>n: raise Panic('split_at mid > len','slice')
     if isinstance(d,VecO): return Agg('()',[Ref(Cell(VecO(d.items[:i.v]))),Ref(Cell(VecO(d.items[i.v:])))])
     return Agg('()',[Ref(Cell(Str(d.b[:i.v],d.is_str if isinstance(d,Str) else True))),Ref(Cell(Str(d.b[i.v:],d.is_str if isinstance(d,Str) else True)))])
